@@ -6,7 +6,7 @@
    lib/gen_tie.py can re-check one target at a time; the first block is the preamble. *)
 (* == block preamble == *)
 From Coq Require Import List NArith ZArith Bool Lia.
-From Coq Require Strings.String.
+From Coq Require Strings.String Strings.Ascii.
 From NextestModel Require Import Base.Tac Proofs.BridgeTac.
 From NextestModel Require gen.GenGlue.
 From NextestModel Require Base.Str Model.Junit.
@@ -16,6 +16,7 @@ From NextestModel Require Model.SignalNames Proofs.SignalNames.
 From NextestModel Require Model.DisplaySetting Proofs.DisplaySetting.
 From NextestModel Require Model.Filter Model.FutureQueue Model.Unit Model.Run Model.CliRun Model.ExecuteStream Proofs.ExecuteStream.
 From NextestModel Require Model.NameFilter Model.FilterFull Proofs.FilterGlue.
+From NextestModel Require Model.Scripts Model.EnvFileLine Proofs.EnvFileLine.
 Import ListNotations.
 Open Scope N_scope.
 
@@ -24,6 +25,9 @@ Module BS := NextestModel.Base.Str.
 Module MNF := NextestModel.Model.NameFilter.
 Module MFF := NextestModel.Model.FilterFull.
 Module PFG := NextestModel.Proofs.FilterGlue.
+Module MSc := NextestModel.Model.Scripts.
+Module MEL := NextestModel.Model.EnvFileLine.
+Module PEL := NextestModel.Proofs.EnvFileLine.
 Module MJ := NextestModel.Model.Junit.
 Module MFl := NextestModel.Model.Filter.
 Module MD := NextestModel.Model.Dispatcher.
@@ -621,4 +625,92 @@ Proof.
   cbn [G.TestFilter_builder_exprs G.TestFilter_partitioner G.TestFilter_builder_patterns G.TestFilter_builder_run_ignored].
   destruct exprs as [|l]; [| generalize (existsb (fun v_expr => pm v_expr) l); intro anyb ];
   bridge_norm; repeat (bridge_case; cbv beta iota); intro H; first [reflexivity | discriminate H].
+Qed.
+
+(* ---------------------------------------------------------------- one line of a setup script's environment file (Model/EnvFileLine.v, C18) *)
+(* == block conv_bytes == *)
+(* Rust strings are Coq strings in the generated file (bytes of the UTF-8 encoding); the models use lists of numbers.
+   str::split_once('=') and str::starts_with("..") as translated (str_split_once, Coq's Strings.String.prefix) are the model's
+   split_once_eq / is_prefix on the bytes: '=' and the letters of NEXTEST are ASCII, and an ASCII byte never occurs
+   inside a multi-byte sequence, so splitting and prefix tests on bytes and on code points agree. *)
+
+Definition G_EQ : Ascii.ascii := Ascii.Ascii true false true true true true false false.
+(* a Rust string as the bytes of its UTF-8 encoding *)
+Fixpoint bytes_of_string (s : Strings.String.string) : BS.str :=
+  match s with Strings.String.EmptyString => [] | Strings.String.String a r => Ascii.N_of_ascii a :: bytes_of_string r end.
+Definition line_result_to_model (r : (Strings.String.string * Strings.String.string) + G.SetupScriptOutputError)
+  : option ((BS.str * BS.str) + MEL.line_error) :=
+  match r with
+  | inl (k, v) => Some (inl (bytes_of_string k, bytes_of_string v))
+  | inr G.SetupScriptOutputError_EnvFileParse => Some (inr MEL.LineNoEquals)
+  | inr G.SetupScriptOutputError_EnvFileReservedKey => Some (inr MEL.LineReservedKey)
+  | inr _ => None
+  end.
+Lemma ascii_eqb_bytes : forall a b, Ascii.eqb a b = (Ascii.N_of_ascii a =? Ascii.N_of_ascii b).
+Proof.
+  intros a b. destruct (Ascii.eqb_spec a b) as [->|Hne]; [symmetry; apply N.eqb_refl|].
+  symmetry. apply N.eqb_neq. intros H. apply Hne.
+  rewrite <- (Ascii.ascii_N_embedding a), <- (Ascii.ascii_N_embedding b), H. reflexivity.
+Qed.
+Lemma split_once_bytes :
+  forall s, MSc.split_once_eq (bytes_of_string s) =
+            option_map (fun kv => (bytes_of_string (fst kv), bytes_of_string (snd kv))) (G.str_split_once G_EQ s).
+Proof.
+  induction s as [|a s IH]; [reflexivity|].
+  cbn [bytes_of_string MSc.split_once_eq]. unfold G.str_split_once; fold (G.str_split_once G_EQ).
+  rewrite ascii_eqb_bytes. change (Ascii.N_of_ascii G_EQ) with MSc.EQ.
+  destruct (Ascii.N_of_ascii a =? MSc.EQ); [reflexivity|].
+  rewrite IH. destruct (G.str_split_once G_EQ s) as [[k v]|]; reflexivity.
+Qed.
+Lemma prefix_bytes : forall p s, Strings.String.prefix p s = BS.is_prefix (bytes_of_string p) (bytes_of_string s).
+Proof.
+  induction p as [|a p IH]; intros [|b s]; try reflexivity.
+  cbn [Strings.String.prefix bytes_of_string BS.is_prefix]. rewrite <- ascii_eqb_bytes.
+  destruct (Ascii.ascii_dec a b) as [->|Hne]; [rewrite Ascii.eqb_refl; apply IH|].
+  apply Ascii.eqb_neq in Hne. rewrite Hne. reflexivity.
+Qed.
+Lemma string_eqb_bytes : forall a b, Strings.String.eqb a b = BS.str_eqb (bytes_of_string a) (bytes_of_string b).
+Proof.
+  induction a as [|x a IH]; intros [|y b]; try reflexivity.
+  cbn [String.eqb bytes_of_string BS.str_eqb]. rewrite <- ascii_eqb_bytes. destruct (Ascii.eqb x y); [apply IH | reflexivity].
+Qed.
+
+
+(* == block env_file_line (needs conv_bytes) == *)
+Module StrLit. Import Strings.String. Definition nextest_lit : string := "NEXTEST". End StrLit.
+(* the model's step in terms of the string primitives of the generated side *)
+Lemma line_step_bytes :
+  forall line,
+    MEL.line_step (bytes_of_string line) =
+    match G.str_split_once G_EQ line with
+    | Some (k, v) => if Strings.String.prefix StrLit.nextest_lit k then inr MEL.LineReservedKey else inl (bytes_of_string k, bytes_of_string v)
+    | None => inr MEL.LineNoEquals
+    end.
+Proof.
+  intros line. unfold MEL.line_step. rewrite split_once_bytes.
+  destruct (G.str_split_once G_EQ line) as [[k v]|]; cbn [option_map fst snd]; [|reflexivity].
+  rewrite prefix_bytes. reflexivity.
+Qed.
+
+(* [bridge] with the string primitives kept folded: they are atoms of the case analysis *)
+Ltac bridge_str :=
+  timeout 240 (intros; cbv -[bytes_of_string Strings.String.prefix Strings.String.eqb G.str_split_once];
+               repeat (bridge_case; cbv beta iota); bridge_leaf).
+Lemma gen_env_file_line_is_model :
+  forall line, line_result_to_model (G.env_file_line line) = Some (MEL.line_step (bytes_of_string line)).
+Proof. intros line. rewrite line_step_bytes. bridge_str. Qed.
+
+(* the loop of Model/Scripts.v (the function C18's environment-file theorems are about) makes exactly this step for
+   every line *)
+Lemma gen_env_file_loop_is_model :
+  forall line rest acc,
+    MSc.parse_lines (bytes_of_string line :: rest) acc =
+    match G.env_file_line line with
+    | inl (k, v) => MSc.parse_lines rest (MSc.env_insert (bytes_of_string k) (bytes_of_string v) acc)
+    | inr _ => None
+    end.
+Proof.
+  intros line rest acc. rewrite PEL.parse_lines_step.
+  pose proof (gen_env_file_line_is_model line) as H.
+  destruct (G.env_file_line line) as [[k v]|[]]; cbn in H; inversion H; reflexivity.
 Qed.
